@@ -180,8 +180,27 @@ def advance_s(case, which):
 
 # ---------------------------------------------------------------- driving
 
+def _start_with_retries(sq, attempts=4):
+    """Instance start-up is bounded by a 60 s real-time limit in lockstep.wait_ready; on an overloaded machine
+    (ASan start-up + squid -z) that limit is occasionally exceeded.  A failed start is machinery, so retry it."""
+    for i in range(attempts):
+        try:
+            return sq.start()
+        except HarnessError as e:
+            if i == attempts - 1 or not re.search(r'not ready after|exited during start-up|squid -z failed|watchdog', str(e)):
+                raise
+            sq.kill()
+            time.sleep(2 + 3 * i)
+
+
+class RetryWorld(ls.World):
+    def start(self):
+        _start_with_retries(self.sq)
+        return self
+
+
 def make_world(ctx, shard):
-    return ls.World(ctx, 'w%d' % shard, ls.port_base_for_check(ctx.pid, shard), memory_cache=True)
+    return RetryWorld(ctx, 'w%d' % shard, ls.port_base_for_check(ctx.pid, shard), memory_cache=True)
 
 
 class Origin:
